@@ -146,6 +146,8 @@ type vsConn struct {
 	nWCalls   int64 // number of Write calls the client made (C08: must be 0 before the first message is accepted)
 	failArmed int32
 	failAfter int32
+	failTimeout int32 // 1: the injected failure is a timeout-class net.Error and the connection stays usable
+	failInPay   int32 // 1: the failure waits for a Write that starts inside a payload
 
 	// outbound frame tracker: where in the frame stream the next Write call starts
 	tmu      sync.Mutex
@@ -217,7 +219,10 @@ func (c *vsConn) Write(p []byte) (int, error) {
 	atomic.AddInt64(&c.nWCalls, 1)
 	c.enter()
 	defer atomic.AddInt32(&c.active, -1)
-	if atomic.CompareAndSwapInt32(&c.failArmed, 1, 2) {
+	c.tmu.Lock()
+	startsInPayload := c.payLeft > 0
+	c.tmu.Unlock()
+	if (atomic.LoadInt32(&c.failInPay) == 1) == startsInPayload && atomic.CompareAndSwapInt32(&c.failArmed, 1, 2) {
 		k := int(atomic.LoadInt32(&c.failAfter))
 		if k > len(p) {
 			k = len(p)
@@ -229,6 +234,10 @@ func (c *vsConn) Write(p []byte) (int, error) {
 			atomic.StoreInt32(&c.inWrite, 0)
 			atomic.AddInt64(&c.nWritten, int64(n))
 			c.track(p[:n])
+		}
+		if atomic.LoadInt32(&c.failTimeout) == 1 {
+			atomic.StoreInt32(&c.failArmed, 0) // the connection is still usable
+			return n, vsTimeoutErr{}
 		}
 		return n, errors.New("verif: injected write failure")
 	}
@@ -245,6 +254,13 @@ func (c *vsConn) Write(p []byte) (int, error) {
 	return n, err
 }
 
+// vsTimeoutErr is what a Write that ran into its deadline returns
+type vsTimeoutErr struct{}
+
+func (vsTimeoutErr) Error() string   { return "verif: injected i/o timeout" }
+func (vsTimeoutErr) Timeout() bool   { return true }
+func (vsTimeoutErr) Temporary() bool { return true }
+
 type vsLogEv struct {
 	Kind string // recv | send | handled | unhandled | panic
 	Typ  int
@@ -254,8 +270,10 @@ type vsLogEv struct {
 }
 
 type vsLogger struct {
-	mu  sync.Mutex
-	evs []vsLogEv
+	mu          sync.Mutex
+	evs         []vsLogEv
+	slowHandled time.Duration // MsgHandled takes this long (connect option slow_handled_ms): widens the window
+	// between passToHandler's reply hand-over / return and whatever the read loop does next
 }
 
 func (l *vsLogger) add(k string, h Header) {
@@ -265,7 +283,12 @@ func (l *vsLogger) add(k string, h Header) {
 }
 func (l *vsLogger) ReceivedMsg(h Header, _ VersionNum) { l.add("recv", h) }
 func (l *vsLogger) SendingMsg(h Header)                { l.add("send", h) }
-func (l *vsLogger) MsgHandled(h Header)                { l.add("handled", h) }
+func (l *vsLogger) MsgHandled(h Header) {
+	l.add("handled", h)
+	if l.slowHandled > 0 {
+		time.Sleep(l.slowHandled)
+	}
+}
 func (l *vsLogger) MsgUnhandled(h Header)              { l.add("unhandled", h) }
 func (l *vsLogger) HandlerPanic(h Header, _ error)     { l.add("panic", h) }
 
@@ -376,6 +399,11 @@ type vsStep struct {
 	Default *vsHandlerSpec  `json:"default_handler"`
 	NoAck   bool            `json:"no_ack_handler"`
 	NoFirst bool            `json:"no_first"`
+	SlowHandled int         `json:"slow_handled_ms"` // connect: the logger's MsgHandled sleeps this long
+	Kind    string          `json:"kind"`            // write_fail: "" = error (connection broken), "timeout" = net.Error with Timeout(), connection stays usable
+	InPayload bool          `json:"in_payload"`      // write_fail: hit the next Write that starts inside a payload instead of the next header Write
+	N       int             `json:"n"`               // peer_read: number of raw bytes
+	Ms      int             `json:"ms"`              // sleep
 	First   *struct {
 		Typ      int    `json:"typ"`
 		ID       uint32 `json:"id"`
@@ -393,6 +421,7 @@ type vsScript struct {
 	ID     string   `json:"id"`
 	StepMs int      `json:"step_ms"`  // limit for one wait (default 3000)
 	WdMs   int      `json:"watchdog"` // whole script (default 30000)
+	Procs  int      `json:"procs"`    // GOMAXPROCS for this script (0 = leave as it is)
 	Steps  []vsStep `json:"steps"`
 }
 
@@ -435,6 +464,7 @@ type vsSess struct {
 	handled []vsHandled
 	panics  []string
 	broken  string // set when the outbound stream could not be parsed: later steps are not attempted
+	raw     []byte // bytes taken by peer_read / drain_raw, in order
 	pending *vsHdr // expect_header read a header whose payload expect_rest has still to read
 	gateCh  chan struct{}
 }
@@ -508,7 +538,7 @@ func (s *vsSess) peerSend(b []byte) vsObs {
 
 // newClient builds the Client from the option fields of a connect / new_client step
 func (s *vsSess) newClient(st vsStep) {
-	s.log = &vsLogger{}
+	s.log = &vsLogger{slowHandled: time.Duration(st.SlowHandled) * time.Millisecond}
 	opts := []ClientOpt{WithLogger(s.log)}
 	if st.Version == 1 {
 		opts = append(opts, WithVersion(Version1_0_1))
@@ -965,7 +995,69 @@ func (s *vsSess) step(st vsStep) vsObs {
 			return vsObs{"st": "noconn"}
 		}
 		atomic.StoreInt32(&s.cc.failAfter, int32(st.After))
+		tk, ip := int32(0), int32(0)
+		if st.Kind == "timeout" {
+			tk = 1
+		}
+		if st.InPayload {
+			ip = 1
+		}
+		atomic.StoreInt32(&s.cc.failTimeout, tk)
+		atomic.StoreInt32(&s.cc.failInPay, ip)
 		atomic.StoreInt32(&s.cc.failArmed, 1)
+		return vsObs{"st": "ok"}
+	case "peer_read":
+		// the peer takes exactly n raw bytes off the wire (recorded in final.raw_hex)
+		if s.peer == nil {
+			return vsObs{"st": "noconn"}
+		}
+		if !s.settle() {
+			return vsObs{"st": "timeout"}
+		}
+		buf := make([]byte, st.N)
+		_ = s.peer.SetReadDeadline(time.Now().Add(s.limit))
+		n, _ := io.ReadFull(s.peer, buf)
+		_ = s.peer.SetReadDeadline(time.Time{})
+		s.raw = append(s.raw, buf[:n]...)
+		o := vsObs{"st": "ok", "got": n}
+		if n < st.N {
+			o["st"] = "short"
+		}
+		if !s.settle() {
+			o["st"] = "timeout-after"
+		}
+		return o
+	case "drain_raw":
+		// the peer takes raw bytes for as long as the client has a Write pending
+		if s.peer == nil {
+			return vsObs{"st": "noconn"}
+		}
+		total := 0
+		buf := make([]byte, 1<<16)
+		for i := 0; i < 100000; i++ {
+			if !s.settle() {
+				return vsObs{"st": "timeout", "got": total}
+			}
+			if atomic.LoadInt32(&s.cc.inWrite) == 0 || atomic.LoadInt32(&s.cc.gated) == 1 {
+				break
+			}
+			_ = s.peer.SetReadDeadline(time.Now().Add(s.limit))
+			n, err := s.peer.Read(buf)
+			_ = s.peer.SetReadDeadline(time.Time{})
+			if len(s.raw) < 1<<22 {
+				s.raw = append(s.raw, buf[:n]...)
+			}
+			total += n
+			if err != nil {
+				break
+			}
+		}
+		return vsObs{"st": "ok", "got": total}
+	case "sleep":
+		time.Sleep(time.Duration(st.Ms) * time.Millisecond)
+		if !s.settle() {
+			return vsObs{"st": "timeout"}
+		}
 		return vsObs{"st": "ok"}
 	case "new_client": // a Client that is never connected (callers before Connect)
 		if s.c != nil {
@@ -1003,6 +1095,13 @@ func (s *vsSess) finish() vsObs {
 		close(s.peerQ)
 	}
 	vsSettle(s.limit)
+	if len(s.raw) > 0 {
+		if len(s.raw) <= 1<<18 {
+			fin["raw_hex"] = hex.EncodeToString(s.raw)
+		}
+		fin["raw_len"] = len(s.raw)
+		fin["raw_hash"] = vsHash(s.raw)
+	}
 	cs := map[string]vsObs{}
 	for id := range s.callers {
 		cs[strconv.Itoa(id)] = s.callerState(id)
@@ -1042,6 +1141,9 @@ func (s *vsSess) finish() vsObs {
 
 func vsRunScript(sc vsScript) (out vsObs) {
 	out = vsObs{"id": sc.ID}
+	if sc.Procs > 0 {
+		defer runtime.GOMAXPROCS(runtime.GOMAXPROCS(sc.Procs))
+	}
 	s := &vsSess{callers: map[int]*vsCaller{}, limit: 3 * time.Second}
 	if sc.StepMs > 0 {
 		s.limit = time.Duration(sc.StepMs) * time.Millisecond
